@@ -4,6 +4,7 @@ package c12
 
 import (
 	"bytes"
+	"errors"
 	"fmt"
 	"sort"
 	"strings"
@@ -28,7 +29,9 @@ type batchSnap struct {
 	kind    string
 	sec     string
 	header  string // rendered header record, batch number (last 7 columns) masked
+	bytes87 string // first 87 bytes of the rendered header
 	number  int
+	cat     string // entry category of the batch (the library's Category field of its first non-NOC entry)
 	entries []entrySnap
 }
 
@@ -54,10 +57,13 @@ func snapshot(f *ach.File) fileSnap {
 	adv := false
 	for _, b := range f.Batches {
 		bh := b.GetHeader()
-		bs := batchSnap{kind: "std", sec: bh.StandardEntryClassCode, header: maskTail(bh.String(), 7), number: bh.BatchNumber}
+		bs := batchSnap{kind: "std", sec: bh.StandardEntryClassCode, header: maskTail(bh.String(), 7), bytes87: first87(bh.String()), number: bh.BatchNumber}
 		for _, e := range b.GetEntries() {
 			ls := stdLines(e)
 			bs.entries = append(bs.entries, entrySnap{"std", bs.sec, e.TraceNumberField(), joinLines(ls, ident), joinLines(ls, maskTrace)})
+			if bs.cat == "" && e.Category != ach.CategoryNOC {
+				bs.cat = e.Category
+			}
 		}
 		if bh.StandardEntryClassCode == ach.ADV {
 			adv = true
@@ -67,6 +73,9 @@ func snapshot(f *ach.File) fileSnap {
 				// the sequence number of an ADV entry is its position in the batch
 				ls[0] = maskTail(ls[0], 4)
 				bs.entries = append(bs.entries, entrySnap{"ADV", bs.sec, "", joinLines(ls, ident), joinLines(ls, ident)})
+				if bs.cat == "" {
+					bs.cat = e.Category
+				}
 			}
 		}
 		s.batches = append(s.batches, bs)
@@ -74,10 +83,13 @@ func snapshot(f *ach.File) fileSnap {
 	for i := range f.IATBatches {
 		b := &f.IATBatches[i]
 		bh := b.GetHeader()
-		bs := batchSnap{kind: "IAT", sec: ach.IAT, header: maskTail(bh.String(), 7), number: bh.BatchNumber}
+		bs := batchSnap{kind: "IAT", sec: ach.IAT, header: maskTail(bh.String(), 7), bytes87: first87(bh.String()), number: bh.BatchNumber}
 		for _, e := range b.GetEntries() {
 			ls := iatLines(e)
 			bs.entries = append(bs.entries, entrySnap{"IAT", ach.IAT, e.TraceNumberField(), joinLines(ls, ident), joinLines(ls, maskTrace)})
+			if bs.cat == "" && e.Category != ach.CategoryNOC {
+				bs.cat = e.Category
+			}
 		}
 		s.batches = append(s.batches, bs)
 	}
@@ -85,6 +97,13 @@ func snapshot(f *ach.File) fileSnap {
 		s.count, s.totalDebit, s.totalCredit = f.ADVControl.EntryAddendaCount, f.ADVControl.TotalDebitEntryDollarAmountInFile, f.ADVControl.TotalCreditEntryDollarAmountInFile
 	} else {
 		s.count, s.totalDebit, s.totalCredit = f.Control.EntryAddendaCount, f.Control.TotalDebitEntryDollarAmountInFile, f.Control.TotalCreditEntryDollarAmountInFile
+	}
+	return s
+}
+
+func first87(s string) string {
+	if len(s) > 87 {
+		return s[:87]
 	}
 	return s
 }
@@ -174,9 +193,103 @@ func twinFile(r *gen.Rand, maxBatches, maxEntries int) (*ach.File, error) {
 			if strings.EqualFold(desc, "PRENOTE") != strings.EqualFold(base.CompanyEntryDescription, "PRENOTE") {
 				continue // a prenote batch and a money batch cannot share a header
 			}
+			if r.Chance(3, 4) {
+				// distinct trace numbers, so that the twins can be merged
+				seq := 1000*(k+1) + r.Intn(500)
+				for _, e := range b.GetEntries() {
+					e.SetTraceNumber(base.ODFIIdentification, seq)
+					seq += r.Range(1, 3)
+				}
+			}
 			if err := b.Create(); err != nil {
 				return nil, fmt.Errorf("twin re-Create: %w", err)
 			}
+		}
+		b.GetHeader().BatchNumber = 0
+		f.AddBatch(b)
+	}
+	return f, f.Create()
+}
+
+// iatTwinFile is twinFile for IAT batches (forward and return batches under
+// one header).
+func iatTwinFile(r *gen.Rand, maxBatches, maxEntries int) (*ach.File, error) {
+	f, err := gen.File(r, gen.Opts{SECs: []string{ach.IAT}, MinBatches: 1, MaxBatches: 1, MaxEntries: maxEntries, ServiceClasses: []int{ach.MixedDebitsAndCredits}})
+	if err != nil {
+		return nil, err
+	}
+	base := f.IATBatches[0].GetHeader()
+	n := r.Range(1, maxBatches-1)
+	for k := 0; k < n; k++ {
+		cat := gen.Pick(r, []string{ach.CategoryForward, ach.CategoryReturn})
+		b, err := gen.IATBatch(r.Fork(uint64(k)), gen.Opts{Categories: []string{cat}, ServiceClasses: []int{ach.MixedDebitsAndCredits}, MaxEntries: maxEntries})
+		if err != nil {
+			return nil, err
+		}
+		if r.Chance(3, 4) {
+			h := b.GetHeader()
+			id := h.ID
+			*h = *base
+			h.ID, h.BatchNumber = id, 0
+			seq := 1
+			if r.Chance(3, 4) {
+				seq = 1000*(k+1) + r.Intn(500)
+			}
+			for _, e := range b.GetEntries() {
+				e.SetTraceNumber(base.ODFIIdentification, seq)
+				if e.Addenda99 != nil {
+					e.Addenda99.TraceNumber = e.TraceNumber
+				}
+				seq += r.Range(1, 3)
+			}
+			if err := b.Create(); err != nil {
+				return nil, fmt.Errorf("IAT twin re-Create: %w", err)
+			}
+		}
+		b.GetHeader().BatchNumber = 0
+		f.AddIATBatch(b)
+	}
+	return f, f.Create()
+}
+
+// odfiTwinFile builds a file of standard forward batches whose headers carry
+// non-ASCII characters and differ in the last digits of the ODFI
+// identification only (columns 80-87, the last field before the batch number).
+func odfiTwinFile(r *gen.Rand, maxBatches, maxEntries int) (*ach.File, error) {
+	sec := gen.Pick(r, []string{ach.PPD, ach.CCD, ach.WEB, ach.TEL, ach.CTX})
+	f, err := gen.File(r, gen.Opts{SECs: []string{sec}, MinBatches: 1, MaxBatches: 1, MaxEntries: maxEntries, PresetTraces: r.Bool()})
+	if err != nil {
+		return nil, err
+	}
+	base := f.Batches[0].GetHeader()
+	base.CompanyName = gen.Pick(r, []string{"M\u00fcller GmbH", "Caf\u00e9 \u00c9lys\u00e9e", "\u00c5\u00c4\u00d6 AB", "Pe\u00f1a e Hijos"})
+	if err := f.Batches[0].Create(); err != nil {
+		return nil, fmt.Errorf("base re-Create: %w", err)
+	}
+	n := r.Range(1, maxBatches-1)
+	for k := 0; k < n; k++ {
+		b, err := gen.Batch(r.Fork(uint64(k)), sec, gen.Opts{ServiceClasses: []int{base.ServiceClassCode}, MaxEntries: maxEntries})
+		if err != nil {
+			return nil, err
+		}
+		if strings.EqualFold(b.GetHeader().CompanyEntryDescription, "PRENOTE") != strings.EqualFold(base.CompanyEntryDescription, "PRENOTE") {
+			continue
+		}
+		copyHeader(b.GetHeader(), base)
+		if r.Chance(3, 4) {
+			od := []byte(base.ODFIIdentification)
+			od[len(od)-1] = '0' + (od[len(od)-1]-'0'+byte(r.Range(1, 9)))%10
+			b.GetHeader().ODFIIdentification = string(od)
+		}
+		if r.Bool() {
+			seq := 1000*(k+1) + r.Intn(500)
+			for _, e := range b.GetEntries() {
+				e.SetTraceNumber(b.GetHeader().ODFIIdentification, seq)
+				seq += r.Range(1, 3)
+			}
+		}
+		if err := b.Create(); err != nil {
+			return nil, fmt.Errorf("ODFI twin re-Create: %w", err)
 		}
 		b.GetHeader().BatchNumber = 0
 		f.AddBatch(b)
@@ -246,18 +359,30 @@ func run(t *T) {
 		var f *ach.File
 		var err error
 		shape := ""
-		maxB, maxE := 1+r.Intn(8), 1+r.Intn(8)
+		maxB, maxE := 2+r.Intn(7), 1+r.Intn(8)
+		minB := 2
+		if r.Chance(1, 10) {
+			minB = 1
+		}
 		switch k := i % 10; {
 		case k == 0:
 			shape = "ADV-repeated-headers"
 			f, err = advFile(r, maxB, maxE)
 		case k == 1:
 			shape = "category-twins"
-			f, err = twinFile(r, maxB+1, maxE)
+			if r.Chance(1, 4) {
+				shape = "non-ASCII-ODFI-twins"
+				f, err = odfiTwinFile(r, maxB+1, maxE)
+			} else if r.Chance(1, 3) {
+				shape = "category-twins-IAT"
+				f, err = iatTwinFile(r, maxB+1, maxE)
+			} else {
+				f, err = twinFile(r, maxB+1, maxE)
+			}
 		default:
 			o := gen.Opts{
 				Categories:      gen.AllCategories(),
-				MinBatches:      1,
+				MinBatches:      minB,
 				MaxBatches:      maxB,
 				MaxEntries:      maxE,
 				HeaderPool:      1 + r.Intn(6),
@@ -366,7 +491,16 @@ func checkFile(t *T, f *ach.File, shape string) {
 		return
 	}
 	if res.err != nil {
-		t.Fail("C12/flatten-error/"+errClass(res.err)+mixedCategories(in), "FlattenBatches returned an error on a valid file", input, res.err.Error(), "nil error")
+		// With a known shape in the input the two ways Flatten notices that a merged
+		// batch could not be created are one class; any other error keeps its own.
+		sig := "C12/flatten-error/" + errClass(res.err) + "/" + kinds(in)
+		if sh := shapeOf(in); sh != "" {
+			sig += sh
+			if errors.Is(res.err, ach.ErrFileNoBatches) || errors.Is(res.err, ach.ErrFlattenChangedEntryCount) {
+				sig = "C12/flatten-error/merged-batch-dropped/" + kinds(in) + sh
+			}
+		}
+		t.Fail(sig, "FlattenBatches returned an error on a valid file", input, res.err.Error(), "nil error")
 		return
 	}
 	if res.f == nil {
@@ -381,14 +515,13 @@ func checkFile(t *T, f *ach.File, shape string) {
 	}
 	checkBatches(t, input, res.f)
 
-	// same multiset of entries
-	compareEntries(t, input, in.entries(), out.entries())
-
-	// counts and totals
-	if out.count != in.count {
+	// same multiset of entries; counts and totals (a consequence when entries
+	// were lost or added, so only reported on their own)
+	same, exact := compareEntries(t, input, in.entries(), out.entries(), shapeOf(in))
+	if !same {
+	} else if out.count != in.count {
 		t.Fail("C12/entry-addenda-count", "entry/addenda count of the file control changed", input, fmt.Sprint(out.count), fmt.Sprint(in.count))
-	}
-	if out.totalDebit != in.totalDebit || out.totalCredit != in.totalCredit {
+	} else if out.totalDebit != in.totalDebit || out.totalCredit != in.totalCredit {
 		t.Fail("C12/totals", "debit/credit totals of the file control changed", input,
 			fmt.Sprintf("debit=%d credit=%d", out.totalDebit, out.totalCredit), fmt.Sprintf("debit=%d credit=%d", in.totalDebit, in.totalCredit))
 	}
@@ -430,19 +563,19 @@ func checkFile(t *T, f *ach.File, shape string) {
 		}
 	}
 
-	// flattening again changes nothing
+	// flattening again changes nothing (only asked of a result that has the input's entries)
 	first, err := text(res.f)
-	if err != nil {
-		return // already reported as result-invalid
+	if err != nil || !exact {
+		return // already reported
 	}
 	res2, done := flatten(res.f)
 	switch {
 	case !done:
-		t.Fail("C12/second-flatten/hang", "FlattenBatches of the result did not return within 20s", input, "no result", "the same file")
+		t.Fail("C12/second-flatten/hang"+shapeOf(in), "FlattenBatches of the result did not return within 20s", input, "no result", "the same file")
 	case res2.panic != "":
-		t.Fail("C12/second-flatten/panic/"+sanitize(res2.panic), "FlattenBatches of the result panicked", input, res2.panic, "the same file")
+		t.Fail("C12/second-flatten/panic/"+sanitize(res2.panic)+shapeOf(in), "FlattenBatches of the result panicked", input, res2.panic, "the same file")
 	case res2.err != nil:
-		t.Fail("C12/second-flatten/error/"+errClass(res2.err), "FlattenBatches of the result returned an error", input, res2.err.Error(), "nil error")
+		t.Fail("C12/second-flatten/error/"+errClass(res2.err)+shapeOf(in), "FlattenBatches of the result returned an error", input, res2.err.Error(), "nil error")
 	case res2.f == nil:
 		t.Fail("C12/second-flatten/nil-output", "FlattenBatches of the result returned nil", input, "nil", "a file")
 	default:
@@ -450,38 +583,55 @@ func checkFile(t *T, f *ach.File, shape string) {
 		if err != nil {
 			t.Fail("C12/second-flatten/unwritable/"+errClass(err), "the twice flattened file cannot be written", input, err.Error(), "nil")
 		} else if second != first {
-			t.Fail("C12/second-flatten/changed", "flattening the result again changed the file", input, diffLine(first, second), "identical NACHA text (file creation date/time masked)")
+			t.Fail("C12/second-flatten/changed"+shapeOf(in), "flattening the result again changed the file", input, diffLine(first, second), "identical NACHA text (file creation date/time masked)")
 		}
 	}
 }
 
-// mixedCategories tells (for the signature of a flatten error) whether the
-// input has equal-header batches of different entry categories, the shape
-// behind the candidate defect D17.
+// mixedCategories tells (for the signature) whether the input has the shape
+// behind D17: two batches of the same kind with equal headers and no common
+// trace number - which Flatten therefore merges - whose entries are of
+// different categories (forward / return / dishonored / contested), so that
+// the merged batch cannot be created.
 func mixedCategories(in fileSnap) string {
-	cat := func(b batchSnap) string {
-		c := "forward"
-		for _, e := range b.entries {
-			for _, l := range strings.Split(e.full, "\n") {
-				if strings.HasPrefix(l, "799") {
-					c = "return"
-				} else if strings.HasPrefix(l, "798") {
-					c = "NOC"
-				}
+	for i, a := range in.batches {
+		for _, b := range in.batches[i+1:] {
+			if a.kind != b.kind || a.header != b.header || a.cat == b.cat || a.cat == "" || b.cat == "" {
+				continue
+			}
+			seen := map[string]bool{}
+			for _, e := range a.entries {
+				seen[e.trace] = e.trace != ""
+			}
+			shared := false
+			for _, e := range b.entries {
+				shared = shared || seen[e.trace]
+			}
+			if !shared {
+				return "/equal-headers-different-categories"
 			}
 		}
-		return c
-	}
-	seen := map[string]string{}
-	for _, b := range in.batches {
-		c := cat(b)
-		if prev, ok := seen[b.kind+b.header]; ok && prev != c {
-			return "/equal-headers-different-categories"
-		}
-		seen[b.kind+b.header] = c
 	}
 	return ""
 }
+
+// bytePrefixTwins tells whether two batches of the input have different
+// headers (ignoring the batch number) that agree in their first 87 bytes:
+// with multi-byte characters in a header the first 87 bytes are fewer than 87
+// columns, so a difference in the last columns before the batch number (ODFI
+// identification, originator status code, ...) lies beyond them.
+func bytePrefixTwins(in fileSnap) string {
+	for i, a := range in.batches {
+		for _, b := range in.batches[i+1:] {
+			if a.kind == b.kind && a.header != b.header && a.bytes87 == b.bytes87 {
+				return "/headers-differ-after-byte-87-only"
+			}
+		}
+	}
+	return ""
+}
+
+func shapeOf(in fileSnap) string { return mixedCategories(in) + bytePrefixTwins(in) }
 
 func diffLine(a, b string) string {
 	la, lb := strings.Split(a, "\n"), strings.Split(b, "\n")
@@ -540,7 +690,37 @@ func count(es []entrySnap, key func(entrySnap) string) map[string]int {
 	return m
 }
 
-func compareEntries(t *T, input map[string]any, in, out []entrySnap) {
+// kinds names the batch kinds of a file: "std", "IAT", "ADV" or "IAT+std".
+func kinds(in fileSnap) string {
+	set := map[string]bool{}
+	for _, b := range in.batches {
+		set[b.kind] = true
+	}
+	var ks []string
+	for k := range set {
+		ks = append(ks, k)
+	}
+	sort.Strings(ks)
+	return strings.Join(ks, "+")
+}
+
+// sigKey is the SEC code, or - when the input has a known shape, whose effect
+// does not depend on the SEC - the kind of the batches of that SEC.
+func sigKey(in []entrySnap, sec, shape string) string {
+	if shape == "" {
+		return sec
+	}
+	for _, e := range in {
+		if e.sec == sec {
+			return e.kind
+		}
+	}
+	return sec
+}
+
+// compareEntries reports whether the two multisets are equal up to trace and
+// sequence numbers (same) and exactly (exact); shape is appended to the signatures.
+func compareEntries(t *T, input map[string]any, in, out []entrySnap, shape string) (same, exact bool) {
 	diff := func(key func(entrySnap) string) (lost, extra map[string][]string, secs []string) {
 		a, b := count(in, key), count(out, key)
 		secOf := map[string]string{}
@@ -586,15 +766,16 @@ func compareEntries(t *T, input map[string]any, in, out []entrySnap) {
 		case len(lost[s]) == 0:
 			what = "added"
 		}
-		t.Fail("C12/entry-multiset/"+s+"/"+what, "the entries of the flattened file are not the input's entries", input, show(lost[s], extra[s]),
+		t.Fail("C12/entry-multiset/"+sigKey(in, s, shape)+"/"+what+shape, "the entries of the flattened file are not the input's entries", input, show(lost[s], extra[s]),
 			"the same multiset of entries with their addenda (shown with trace and sequence numbers masked)")
 	}
 	if len(secs) > 0 {
-		return
+		return false, false
 	}
 	lost, extra, secs = diff(func(e entrySnap) string { return e.kind + "\x00" + e.full })
 	for _, s := range secs {
-		t.Fail("C12/entry-multiset/"+s+"/trace-or-sequence-number-changed", "entries of the flattened file differ from the input's in their trace / sequence numbers only", input, show(lost[s], extra[s]),
+		t.Fail("C12/entry-multiset/"+sigKey(in, s, shape)+"/trace-or-sequence-number-changed"+shape, "entries of the flattened file differ from the input's in their trace / sequence numbers only", input, show(lost[s], extra[s]),
 			"the same multiset of entries with their addenda")
 	}
+	return true, len(secs) == 0
 }
